@@ -76,13 +76,26 @@ def _expected(m, bound):
     return GR.state_at(m, bound)
 
 
-def h_bound(tid: bytes, form: str, live_commit: bool, packed: bool = False) -> None:
+def h_bound(tid: bytes, form: str, live_commit: bool, packed: bool = False, demo: bool = False) -> None:
+    """demo: the history G1 is the base of a demo storage that has written some of its objects again."""
     assume(len(tid) == 8)
+    assume(not (demo and packed))
     with untraced():
         from ZODB.POSException import POSKeyError, ReadOnlyHistoryError, ReadOnlyError
         env = T.Env()
         g = GR.G(env).build('G1')
         s = g.s
+        if demo:
+            import ZODB.DemoStorage
+            g.close()
+            s = ZODB.DemoStorage.DemoStorage(base=s)
+            g = GR.G(env, storage=s)
+            r_ = g.c.root()
+            r_['a']['x'] = 50
+            r_['demo_new'] = g.PM()
+            g.commit('first commit through the demo storage: a, root and a new object')
+            r_['a']['x'] = 51
+            g.commit('second commit through the demo storage')
         m = GR.model_from_storage(s)
         last = m.last_tid()
         stop = None
@@ -202,6 +215,17 @@ def h_bound(tid: bytes, form: str, live_commit: bool, packed: bool = False) -> N
                 fail('commit through a historical connection succeeded')
             except (ReadOnlyHistoryError, ReadOnlyError):
                 tm2.abort()
+            # the refused change is gone, a second attempt is refused as well, and nothing of it reaches later users
+            check('intruder' not in hc2.root(), 'change refused by a historical connection is still shown after the abort')
+            hc2.root()['intruder'] = 2
+            try:
+                tm2.commit()
+                fail('second commit through a historical connection succeeded')
+            except (ReadOnlyHistoryError, ReadOnlyError):
+                tm2.abort()
+            hc2.close()
+            hc2 = g.db.open(tm2, before=cb)
+            check('intruder' not in hc2.root(), 'a later user of the historical point is shown a change that was never committed')
             try:
                 hc2._storage.store(T.oid(1), T.Z64, b'x', '', None)
                 fail('store through the historical storage adapter accepted')
@@ -382,11 +406,13 @@ HARNESSES = [
                     'point (records, object graph, identity), is unaffected by later live commits, refuses commits, and a point '
                     'later than the newest transaction is refused',
             symbolic='tid (8 free bytes); form (at / before) and whether live connections commit meanwhile are shards',
-            bounds='history G1 (9 transactions, 7 objects)', oracle='RevStore state at the bound; reachability',
+            bounds='history G1 (9 transactions, 7 objects); demo: G1 as the base of a demo storage with 2 further commits', oracle='RevStore state at the bound; reachability',
             code=['DB.open', 'DB.getTID', 'HistoricalStorageAdapter.load/store', 'Connection.__init__ (before)', 'Connection.commit '
                   '(ReadOnlyHistoryError)', 'FileStorage.loadBefore'],
-            quick=dict(timeout=170, shards=shards(form=['before', 'at'], live_commit=[True], packed=[False]) + shards(form=['before'], live_commit=[False], packed=[True])),
-            thorough=dict(timeout=900, shards=shards(form=['before', 'at'], live_commit=[True, False], packed=[False, True]))),
+            quick=dict(timeout=170, shards=shards(form=['before', 'at'], live_commit=[True], packed=[False], demo=[False]) + shards(form=['before'], live_commit=[False], packed=[True], demo=[False])
+                       + shards(form=['before'], live_commit=[False], packed=[False], demo=[True])),
+            thorough=dict(timeout=900, shards=shards(form=['before', 'at'], live_commit=[True, False], packed=[False, True], demo=[False])
+                          + shards(form=['before', 'at'], live_commit=[True, False], packed=[False], demo=[True]))),
     Harness('multidb_bound', h_multidb_bound,
             decides='in a multi-database the connection to another database obtained from a historical connection shows every '
                     'object of that database exactly as of the same 8-byte bound (given as at= or before=)',
